@@ -17,6 +17,8 @@
 #include <libast.h>
 #include <stdarg.h>
 #include <setjmp.h>
+#include <signal.h>
+#include <sys/time.h>
 #include "vh.h"
 
 #define MAXOPT   10
@@ -65,13 +67,24 @@ static char argvdesc[600];
 
 /* ------------------------------------------------------------------ step counter / wrappers */
 static long steps, step_bound, n_err, n_warn, n_help;
-static int in_parse;
-static jmp_buf parse_env;
+static volatile sig_atomic_t in_parse;
+static sigjmp_buf parse_env;
+static int wd_fired;            /* CPU-time backstop firings in this process */
 
 static void step(void)
 {
     if (!in_parse) return;
-    if (++steps > step_bound) { in_parse = 0; longjmp(parse_env, 2); }
+    if (++steps > step_bound) { in_parse = 0; siglongjmp(parse_env, 2); }
+}
+/* Backstop only: a loop that makes no observable call cannot be counted.  One spifopt_parse() call on <= 24 words
+ * costs ~1e-5 s; 3 s of *process CPU time* (ITIMER_VIRTUAL, so machine load does not matter) inside one call is a hang. */
+static void on_vtalrm(int sig) { (void) sig; if (in_parse) { in_parse = 0; siglongjmp(parse_env, 3); } }
+static void wd_arm(int on)
+{
+    struct itimerval it;
+    memset(&it, 0, sizeof it);
+    if (on) { if (wd_fired) it.it_value.tv_usec = 300000; else it.it_value.tv_sec = 3; }
+    setitimer(ITIMER_VIRTUAL, &it, NULL);
 }
 
 void __wrap_libast_print_error(const char *fmt, ...)
@@ -97,7 +110,7 @@ void __wrap_libast_print_warning(const char *fmt, ...)
     step();
 }
 static void help_count(void) { n_help++; step(); }
-static void help_giveup(void) { n_help++; if (in_parse) { in_parse = 0; longjmp(parse_env, 1); } }
+static void help_giveup(void) { n_help++; if (in_parse) { in_parse = 0; siglongjmp(parse_env, 1); } }
 
 static struct { int j; int isnull; char v[96]; } calls[MAXCALL];
 static int ncalls;
@@ -115,15 +128,21 @@ static void abst_record(int j, spif_charptr_t v)
 H(0) H(1) H(2) H(3) H(4) H(5) H(6) H(7) H(8) H(9)
 static spifopt_abstract_handler_t ABH[MAXOPT] = { abst_h0, abst_h1, abst_h2, abst_h3, abst_h4, abst_h5, abst_h6, abst_h7, abst_h8, abst_h9 };
 
-/* returns 0 parse returned, 1 help handler gave up (legal: it "does not return"), 2 step bound exceeded */
+/* returns 0 parse returned, 1 help handler gave up (legal: it "does not return"), 2 step bound exceeded,
+ * 3 CPU-time backstop fired */
 static int run_parse(int argc, char **argv)
 {
     int r;
     steps = 0;
-    in_parse = 1;
-    r = setjmp(parse_env);
-    if (r == 0) spifopt_parse(argc, argv);
+    r = sigsetjmp(parse_env, 1);
+    if (r == 0) {
+        in_parse = 1;
+        wd_arm(1);
+        spifopt_parse(argc, argv);
+    }
     in_parse = 0;
+    wd_arm(0);
+    if (r == 3) wd_fired++;
     return r;
 }
 
@@ -541,6 +560,7 @@ static void check_wf(const char *when, int r, int pass_pp, int rm_flag, int flag
     /* bad-option accounting */
     vh_evals(3);
     if (r == 2) vh_fail("wf:non-termination", "more than %ld logical steps (errors=%ld help=%ld); " CTX, step_bound, n_err, n_help, CTXA);
+    if (r == 3) vh_fail("wf:hang-watchdog", "one spifopt_parse call used the whole CPU-time backstop without reaching the logical step bound (steps=%ld); " CTX, steps, CTXA);
     if (r == 1 || n_err || n_help || SPIFOPT_BADOPTS_GET() != 0)
         vh_fail("wf:badopts", "well-formed command line reported as bad: BADOPTS=%d errors=%ld help=%ld; " CTX, (int) SPIFOPT_BADOPTS_GET(), n_err, n_help, CTXA);
     if (argc0 > 1) {
@@ -673,6 +693,7 @@ static void check_arb(const char *when, int r, int pass_pp, int rm_flag)
 {
     vh_evals(1);
     if (r == 2) vh_fail("arb:non-termination", "more than %ld logical steps (errors=%ld warnings=%ld help=%ld abstract=%d) - the parser does not advance; " CTX, step_bound, n_err, n_warn, n_help, ncalls, CTXA);
+    if (r == 3) vh_fail("arb:hang-watchdog", "one spifopt_parse call used the whole CPU-time backstop without reaching the logical step bound (steps=%ld); " CTX, steps, CTXA);
     if (SPIFOPT_BADOPTS_GET()) vh_count("arb_badopts_counted", 1);
     for (int k = 0; k < nbt; k++) {
         vh_evals(1);
@@ -858,8 +879,10 @@ int main(int argc, char **argv)
     int L = !strcmp(vh_tier, "thorough") ? 3 : 2;
     long EXH = exh_total(L);
     libast_set_program_name("c08");
+    signal(SIGVTALRM, on_vtalrm);
 
     while (vh_next_case()) {
+        if (wd_fired >= 10) { vh_count("shard_stopped_after_10_hangs", 1); break; }
         if (VH_CASE_TRY()) {
             long idx = vh_case_idx;
             if (idx < EXH) {
